@@ -47,7 +47,8 @@ BASE[None] = BASE["low"]
 
 
 def bound(tier):
-    return "48 lattice points x 5-7 programs x 3 in-process entry points; 48 lattice points x 2 programs as real CLI processes"
+    return ("48 lattice points x 6-8 programs x 3 in-process entry points; 48 lattice points x " + ("all" if tier == "thorough" else "2") +
+            " programs as real CLI processes")
 
 
 def programs(mapping, defines):
@@ -90,7 +91,7 @@ def cases(tier, seed):
     for i in range(len(lattice())):
         yield ("inproc", i)
     for i in range(len(lattice())):
-        yield ("subproc", i, (i + seed) % 5)
+        yield ("subproc", i, (i + seed) % 5, tier)
 
 
 def describe(case, res):
@@ -266,14 +267,14 @@ def run_inproc(i):
     return {"evals": max(evals, 1), "nontrivial": 1 if nontrivial else 0, "outcome": sorted(outcomes), "violations": viol[:12], "example": example}
 
 
-def run_subproc(i, pick):
+def run_subproc(i, pick, tier="quick"):
     fmt, mapping, header, defines = lattice()[i]
     viol = []
     outcomes = set()
     evals = 0
     progs = programs(mapping, defines)
     names = list(progs)
-    chosen = {names[pick % len(names)], names[-1]}
+    chosen = set(names) if tier == "thorough" else {names[pick % len(names)], names[-1]}
     mtag = f"fmt={fmt},map={mapping},defines={'yes' if defines else 'no'}"
     for name in sorted(chosen):
         prog = progs[name]
@@ -303,4 +304,4 @@ def run_subproc(i, pick):
 def run_case(case):
     if case[0] == "inproc":
         return run_inproc(case[1])
-    return run_subproc(case[1], case[2])
+    return run_subproc(*case[1:])
